@@ -2,12 +2,17 @@ import PhreeqcVerif.Lemmas.Gamma
 import Mathlib.Tactic.Ring
 import Mathlib.Tactic.Linarith
 import Mathlib.Tactic.FieldSimp
+import Mathlib.Algebra.Order.Field.Basic
 /-!
 # C16 — activity-coefficient models follow their defining equations and Gibbs–Duhem
 
 Statements about `Model/Gamma.lean` (the branches of `Phreeqc::gammas`, the model-selection rule of `read_species`,
-the LLNL grid interpolation) and `Model/Pitzer.lean` (the sums of `Phreeqc::pitzer`).  The models are tied to the C++
-by `tools/props/c16.py` (per-species correspondence of real runs; in-process comparison of the Pitzer/SIT arrays).
+the LLNL grid interpolation) and `Model/Pitzer.lean` (the sums of `Phreeqc::pitzer` / `Phreeqc::sit`).  The models are
+tied to the C++ by `tools/props/c16.py` (per-species correspondence of real runs at 1e-9; in-process comparison of the
+Pitzer/SIT working arrays; integrated Gibbs–Duhem and water-activity oracles on real outputs).
+
+What is *not* a theorem here: Gibbs–Duhem for the ionic-strength-dependent terms (Debye–Hückel `F`, β¹·g, β²·g, ᴱθ)
+— that part is the numerical oracle of the check; only the algebraic relation `g + g′ = exp(−x)` is proved.
 -/
 namespace PhreeqcVerif.Gamma
 open NumOps
@@ -129,6 +134,7 @@ example (f : TransFns Rat) : letI := ratOps f
     (assign (α := Rat) { zIsZero := true, special := .none, opts := [] }).dhb = 1 / 10 := by
   refine ⟨rfl, rfl, rfl⟩
 
+
 /-! ## the formulas -/
 
 /-- **log γ = 0 at I = 0** for every formula branch of `gammas` (Davies, extended/WATEQ Debye–Hückel, `b·I`,
@@ -221,4 +227,473 @@ example : letI := ratOps ⟨id, id, id, id, id, id, id, id, id, id⟩
     davies (1 / 2 : Rat) 1 2 = -2 / 5 ∧ davies (1 / 2 : Rat) 1 (-2) = -2 / 5 := by
   refine ⟨by norm_num [davies], by norm_num [davies]⟩
 
+
+/-! ## LLNL temperature grid -/
+
+/-- what the search loop returns on a strictly increasing (suffix of the) grid that contains a node `>= tc`:
+`ilast` is the first such node; `ifirst` is the same node when it equals `tc`, otherwise the node before it
+(`ifirst0`, the value carried in, when there is none in this suffix) -/
+theorem searchGo_spec (f : TransFns Rat) (tc : Rat) (n : Nat) (l : List Rat) (i ifirst : Nat)
+    (hex : ∃ x ∈ l, tc ≤ x) :
+    letI := ratOps f
+    ∃ k, k < l.length ∧ (searchGo tc n l i ifirst).2 = i + k ∧ tc ≤ l.getD k 0 ∧ (∀ j, j < k → l.getD j 0 < tc) ∧
+      (searchGo tc n l i ifirst).1 = (if l.getD k 0 ≤ tc then i + k else if k = 0 then ifirst else i + k - 1) := by
+  induction l generalizing i ifirst with
+  | nil => obtain ⟨x, hx, _⟩ := hex; simp at hx
+  | cons t rest ih =>
+    by_cases h : tc ≤ t
+    · refine ⟨0, by simp, ?_, by simpa using h, by intro j hj; omega, ?_⟩
+      · simp [searchGo, h]
+      · by_cases h2 : t ≤ tc <;> simp [searchGo, h, h2]
+    · have hlt : t < tc := lt_of_not_ge h
+      have hex' : ∃ x ∈ rest, tc ≤ x := by
+        obtain ⟨x, hx, hxt⟩ := hex
+        simp at hx
+        rcases hx with rfl | hx
+        · exact absurd hxt h
+        · exact ⟨x, hx, hxt⟩
+      obtain ⟨k, hk, h2, h3, h4, h5⟩ := ih (i + 1) i hex'
+      have e : ∀ j, (t :: rest).getD (j + 1) 0 = rest.getD j 0 := fun j => by simp
+      refine ⟨k + 1, by simp; omega, ?_, by rw [e]; exact h3, ?_, ?_⟩
+      · simp only [searchGo, h, if_false, le_of_lt hlt, if_true]
+        rw [h2]; omega
+      · intro j hj
+        cases j with
+        | zero => simpa using hlt
+        | succ j => rw [e]; exact h4 j (by omega)
+      · simp only [searchGo, h, if_false, le_of_lt hlt, if_true]
+        rw [h5, e]
+        by_cases h6 : rest.getD k 0 ≤ tc
+        · rw [if_pos h6, if_pos h6]; omega
+        · rw [if_neg h6, if_neg h6, if_neg (Nat.succ_ne_zero k)]
+          by_cases hk0 : k = 0
+          · rw [if_pos hk0]; omega
+          · rw [if_neg hk0]; omega
+
+theorem getD_lt_of_pairwise (l : List Rat) (hs : l.Pairwise (· < ·)) (a b : Nat) (hab : a < b) (hb : b < l.length) :
+    l.getD a 0 < l.getD b 0 := by
+  have ha : a < l.length := by omega
+  have e1 : l.getD a 0 = l[a] := by simp [List.getD_eq_getElem?_getD, List.getElem?_eq_getElem ha]
+  have e2 : l.getD b 0 = l[b] := by simp [List.getD_eq_getElem?_getD, List.getElem?_eq_getElem hb]
+  rw [e1, e2]
+  exact List.pairwise_iff_getElem.mp hs a b ha hb hab
+
+/-- **The LLNL interpolation as coded is a convex combination of adjacent grid nodes and is exact at nodes**:
+on a strictly increasing temperature grid and for `tc` inside it, the indices found by the search loop are equal or
+adjacent and bracket `tc`; the weight lies in `[0, 1]`; every interpolated array value lies between the two grid
+values; at a node the value is the grid value. -/
+theorem llnl_interp_convex (f : TransFns Rat) (ts vs : List Rat) (tc : Rat) (hs : ts.Pairwise (· < ·))
+    (hr : letI := ratOps f; inRange ts tc = true) :
+    letI := ratOps f
+    ∃ i j v, search ts tc = (i, j) ∧ interp ts vs tc = some v ∧ j < ts.length ∧ (j = i ∨ j = i + 1) ∧
+      ts.getD i 0 ≤ tc ∧ tc ≤ ts.getD j 0 ∧
+      0 ≤ weight ts tc i j ∧ weight ts tc i j ≤ 1 ∧
+      min (vs.getD i 0) (vs.getD j 0) ≤ v ∧ v ≤ max (vs.getD i 0) (vs.getD j 0) ∧
+      (∀ k, k < ts.length → ts.getD k 0 = tc → i = k ∧ j = k ∧ v = vs.getD k 0) := by
+  let _i : NumOps Rat := ratOps f
+  cases ts with
+  | nil => simp [inRange] at hr
+  | cons t0 rest =>
+    simp only [inRange, Bool.not_eq_true', Bool.or_eq_false_iff, decide_eq_false_iff_not, not_lt] at hr
+    obtain ⟨hlo, hhi⟩ := hr
+    have hex : ∃ x ∈ t0 :: rest, tc ≤ x := ⟨(t0 :: rest).getLastD t0, by
+      cases rest with
+      | nil => simp
+      | cons a r => simp [List.getLastD], hhi⟩
+    obtain ⟨k, hk, h2, h3, h4, h5⟩ := searchGo_spec f tc (t0 :: rest).length (t0 :: rest) 0 0 hex
+    simp only [Nat.zero_add] at h2 h5
+    -- ifirst
+    have hi : (searchGo tc (t0 :: rest).length (t0 :: rest) 0 0).1 = (if (t0 :: rest).getD k 0 ≤ tc then k else k - 1) := by
+      rw [h5]
+      by_cases h6 : (t0 :: rest).getD k 0 ≤ tc
+      · rw [if_pos h6, if_pos h6]
+      · rw [if_neg h6, if_neg h6]
+        by_cases hk0 : k = 0
+        · subst hk0
+          have : (t0 :: rest).getD 0 0 = t0 := by simp
+          rw [this] at h6
+          exact absurd hlo h6
+        · rw [if_neg hk0]
+    set ts := t0 :: rest with hts
+    have hsearch : search ts tc = ((if ts.getD k 0 ≤ tc then k else k - 1), k) := by
+      unfold search
+      exact Prod.ext hi h2
+    by_cases h6 : ts.getD k 0 ≤ tc
+    · -- tc is the node k
+      have heq : ts.getD k 0 = tc := le_antisymm h6 h3
+      simp only [h6, if_true] at hsearch
+      refine ⟨k, k, vs.getD k 0, hsearch, ?_, hk, Or.inl rfl, h6, h3, ?_, ?_, ?_, ?_, ?_⟩
+      · have : inRange ts tc = true := by
+          simp only [hts, inRange, Bool.not_eq_true', Bool.or_eq_false_iff, decide_eq_false_iff_not, not_lt]
+          exact ⟨hlo, hhi⟩
+        simp only [interp, this, if_true, hsearch, weight, blend, rat_lit]
+        simp
+      · simp [weight]
+      · simp [weight]
+      · simp
+      · simp
+      · intro k' hk' hk'eq
+        have : k' = k := by
+          rcases Nat.lt_trichotomy k' k with hlt | heq' | hgt
+          · have := h4 k' hlt; rw [hk'eq] at this; exact absurd this (lt_irrefl _)
+          · exact heq'
+          · have := getD_lt_of_pairwise ts hs k k' hgt hk'
+            rw [heq, hk'eq] at this; exact absurd this (lt_irrefl _)
+        subst this
+        exact ⟨rfl, rfl, rfl⟩
+    · -- strictly between node k-1 and node k
+      have hk0 : k ≠ 0 := by
+        intro hk0; subst hk0; simp [hts] at h6; exact absurd hlo (not_le.mpr h6)
+      have hlt : tc < ts.getD k 0 := lt_of_not_ge h6
+      have hprev : ts.getD (k - 1) 0 < tc := h4 (k - 1) (by omega)
+      simp only [h6, if_false] at hsearch
+      have hne : ¬ (k = k - 1) := by omega
+      have hden : 0 < ts.getD k 0 - ts.getD (k - 1) 0 := by linarith
+      have hw : weight ts tc (k - 1) k = (tc - ts.getD (k - 1) 0) / (ts.getD k 0 - ts.getD (k - 1) 0) := by
+        simp [weight, hne]
+      have hw0 : 0 ≤ weight ts tc (k - 1) k := by
+        rw [hw]; exact div_nonneg (by linarith) (le_of_lt hden)
+      have hw1 : weight ts tc (k - 1) k ≤ 1 := by
+        rw [hw, div_le_one hden]; linarith
+      refine ⟨k - 1, k, blend (weight ts tc (k - 1) k) vs (k - 1) k, hsearch, ?_, hk, Or.inr (by omega), le_of_lt hprev,
+        h3, hw0, hw1, ?_, ?_, ?_⟩
+      · have : inRange ts tc = true := by
+          simp only [hts, inRange, Bool.not_eq_true', Bool.or_eq_false_iff, decide_eq_false_iff_not, not_lt]
+          exact ⟨hlo, hhi⟩
+        simp only [interp, this, if_true, hsearch]
+      · simp only [blend, rat_lit]
+        set w := weight ts tc (k - 1) k
+        rcases le_total (vs.getD (k - 1) 0) (vs.getD k 0) with hle | hle
+        · rw [min_eq_left hle]; nlinarith
+        · rw [min_eq_right hle]; nlinarith
+      · simp only [blend, rat_lit]
+        set w := weight ts tc (k - 1) k
+        rcases le_total (vs.getD (k - 1) 0) (vs.getD k 0) with hle | hle
+        · rw [max_eq_right hle]; nlinarith
+        · rw [max_eq_left hle]; nlinarith
+      · intro k' hk' hk'eq
+        exfalso
+        rcases Nat.lt_or_ge k' k with hlt' | hge
+        · have := h4 k' hlt'; rw [hk'eq] at this; exact lt_irrefl _ this
+        · rcases Nat.eq_or_lt_of_le hge with heq' | hgt
+          · subst heq'; rw [hk'eq] at hlt; exact lt_irrefl _ hlt
+          · have := getD_lt_of_pairwise ts hs k k' hgt hk'
+            rw [hk'eq] at this; linarith
+
+/-- non-vacuity on the head of llnl.dat's grid: 40 °C lies between the 25 °C and 60 °C nodes -/
+example : letI := ratOps ⟨id, id, id, id, id, id, id, id, id, id⟩
+    search [1 / 100, 25, 60, 100] (40 : Rat) = (1, 2) ∧
+    interp [1 / 100, 25, 60, 100] [4939 / 10000, 5114 / 10000, 5465 / 10000, 5995 / 10000] (40 : Rat)
+      = some ((1 - 3 / 7) * (5114 / 10000) + 3 / 7 * (5465 / 10000)) ∧
+    interp [1 / 100, 25, 60, 100] [4939 / 10000, 5114 / 10000, 5465 / 10000, 5995 / 10000] (60 : Rat) = some (5465 / 10000) ∧
+    interp [1 / 100, 25, 60, 100] [1, 2, 3, 4] (101 : Rat) = none := by
+  refine ⟨?_, ?_, ?_, ?_⟩ <;>
+    norm_num [search, searchGo, interp, inRange, weight, blend, List.getLastD]
+
+
 end PhreeqcVerif.Gamma
+
+namespace PhreeqcVerif.Pitzer
+open NumOps
+
+/-! ## Gibbs–Duhem for the constant-coefficient virial part -/
+
+/-- a parameter with rational coefficients as a parameter over the dual numbers (all coefficients constant) -/
+def PParam.toDual (p : PParam Rat) : PParam Dual :=
+  { type := p.type, i0 := p.i0, i1 := p.i1, i2 := p.i2, p := .const p.p, c0den := .const p.c0den,
+    ln0 := .const p.ln0, ln1 := .const p.ln1, ln2 := .const p.ln2, os := .const p.os, g := .const p.g,
+    gp := .const p.gp, ex := .const p.ex, etheta := .const p.etheta, ethetap := .const p.ethetap }
+
+def uses3 : PType → Bool
+  | .psi | .zeta | .eta | .mu => true
+  | _ => false
+
+/-- species indices inside `0..n-1` -/
+def PParam.wf (n : Nat) (p : PParam Rat) : Prop :=
+  p.i0 < n ∧ p.i1 < n ∧ (uses3 p.type = true → p.i2 < n)
+
+/-- the `ln_coef` / `os_coef` multipliers are the ones `pitzer_tidy` computes -/
+def PParam.tidy (f : TransFns Rat) (neutral : Nat → Bool) (p : PParam Rat) : Prop :=
+  letI := ratOps f
+  (p.type = .lambda → (p.ln0, p.ln1, p.os) = lambdaCoefs p.i0 p.i1) ∧
+  (p.type = .mu → p.ln0 = muLn p.i0 p.i1 p.i2 p.i0 (neutral p.i0) ∧ p.ln1 = muLn p.i0 p.i1 p.i2 p.i1 (neutral p.i1) ∧
+      p.ln2 = muLn p.i0 p.i1 p.i2 p.i2 (neutral p.i2) ∧
+      p.os = muOs p.i0 p.i1 p.i2 (neutral p.i0) (neutral p.i1) (neutral p.i2))
+
+/-- weighted sum of the first-order parts of a list of additions -/
+def wsum (m : Nat → Rat) (T : List (Nat × Dual)) : Rat :=
+  match T with
+  | [] => 0
+  | t :: rest => m t.1 * t.2.eps + wsum m rest
+
+theorem wsum_append (m : Nat → Rat) (A B : List (Nat × Dual)) : wsum m (A ++ B) = wsum m A + wsum m B := by
+  induction A with
+  | nil => simp [wsum]
+  | cons a A ih => simp only [List.cons_append, wsum, ih]; ring
+
+/-- `Σ_k m_k · ε(LGAMMA[k])` over the species equals the weighted sum over the additions -/
+theorem rsum_addTerms (f : TransFns Rat) (n : Nat) (m : Nat → Rat) (T : List (Nat × Dual)) (acc : Nat → Dual)
+    (h : ∀ t ∈ T, t.1 < n) :
+    letI := dualOps f
+    rsum n (fun k => m k * (addTerms T k (acc k)).eps) = rsum n (fun k => m k * (acc k).eps) + wsum m T := by
+  induction T generalizing acc with
+  | nil => simp [addTerms, wsum]
+  | cons t T ih =>
+    have ht : t.1 < n := h t (by simp)
+    have hT : ∀ t' ∈ T, t'.1 < n := fun t' ht' => h t' (by simp [ht'])
+    have step := ih (fun k => if t.1 = k then acc k + t.2 else acc k) hT
+    simp only [addTerms, List.foldl_cons] at step ⊢
+    rw [step]
+    have : (fun k => m k * (if t.1 = k then acc k + t.2 else acc k).eps)
+        = (fun k => m k * (acc k).eps + (if t.1 = k then m t.1 * t.2.eps else 0)) := by
+      funext k
+      by_cases hk : t.1 = k
+      · subst hk; simp; ring
+      · simp [hk]
+    rw [this, rsum_add, rsum_ite n t.1 _ ht]
+    simp only [wsum]; ring
+
+theorem foldl_add_eps (f : TransFns Rat) {β : Type} (l : List β) (g : β → Dual) (a : Dual) :
+    letI := dualOps f
+    (l.foldl (fun acc p => acc + g p) a).eps = a.eps + (l.map fun p => (g p).eps).sum := by
+  induction l generalizing a with
+  | nil => simp
+  | cons x l ih => simp only [List.foldl_cons, ih, List.map_cons, List.sum_cons, d_add_eps]; ring
+
+theorem wsum_flatMap (m : Nat → Rat) {β : Type} (l : List β) (g : β → List (Nat × Dual)) :
+    wsum m (l.flatMap g) = (l.map fun p => wsum m (g p)).sum := by
+  induction l with
+  | nil => simp [wsum]
+  | cons x l ih => simp only [List.flatMap_cons, wsum_append, ih, List.map_cons, List.sum_cons]
+
+theorem sumTo_re (f : TransFns Rat) (n : Nat) (g : Nat → Dual) :
+    letI := dualOps f
+    (sumTo n g).re = rsum n (fun k => (g k).re) := by
+  induction n with
+  | zero => simp [sumTo, rsum]
+  | succ k ih => simp only [sumTo, rsum, d_add_re, ih]
+
+theorem lambda_cases (f : TransFns Rat) (i0 i1 : Nat) (l0 l1 os : Rat)
+    (h : letI := ratOps f; (l0, l1, os) = lambdaCoefs i0 i1) :
+    (i0 = i1 ∧ l0 = 1 ∧ l1 = 1 ∧ os = 1 / 2) ∨ (i0 ≠ i1 ∧ l0 = 2 ∧ l1 = 2 ∧ os = 1) := by
+  simp only [lambdaCoefs] at h
+  by_cases e : i0 = i1
+  · simp only [e, if_true, rat_lit, Prod.mk.injEq] at h
+    exact Or.inl ⟨e, h.1, h.2.1, h.2.2⟩
+  · simp only [e, if_false, rat_lit, Prod.mk.injEq] at h
+    exact Or.inr ⟨e, h.1, h.2.1, h.2.2⟩
+
+/-- one parameter: `Σ_k m_k · ε(its additions to LGAMMA[k])`, including its share of `z·CSUM`, equals
+`ε(2 · its addition to OSMOT)` — for an arbitrary dual `bigZ` -/
+theorem param_gd (f : TransFns Rat) (neutral : Nat → Bool) (p : PParam Rat) (ht : p.tidy f neutral)
+    (m d : Nat → Rat) (bigZ : Dual) (present : Nat → Bool) :
+    letI := dualOps f
+    wsum m (lnTermsConst p.toDual (fun k => Dual.mk (m k) (d k)) bigZ present)
+        + bigZ.re * (csumOf p.toDual (fun k => Dual.mk (m k) (d k))).eps
+      = 2 * (osConst p.toDual (fun k => Dual.mk (m k) (d k)) bigZ present).eps := by
+  obtain ⟨ty, i0, i1, i2, pp, cden, l0, l1, l2, os, g, gp, ex, et, etp⟩ := p
+  cases ty
+  case b0 => simp [lnTermsConst, osConst, csumOf, PParam.toDual, wsum]; ring
+  case b1 => simp [lnTermsConst, osConst, csumOf, PParam.toDual, wsum]
+  case b2 => simp [lnTermsConst, osConst, csumOf, PParam.toDual, wsum]
+  case c0 =>
+    simp only [lnTermsConst, osConst, csumOf, PParam.toDual, wsum, d_mul_eps, d_mul_re, d_div_eps, d_div_re,
+      d_const_re, d_const_eps, d_mk_re, d_mk_eps, mul_zero, sub_zero, add_zero]
+    by_cases hc : cden = 0
+    · subst hc; simp
+    · field_simp
+      ring
+  case theta => simp [lnTermsConst, osConst, csumOf, PParam.toDual, wsum]; ring
+  case lambda =>
+    have hl := lambda_cases f i0 i1 l0 l1 os (ht.1 rfl)
+    rcases hl with ⟨e, h0, h1, h2⟩ | ⟨e, h0, h1, h2⟩
+    · subst e h0 h1 h2
+      simp [lnTermsConst, osConst, csumOf, PParam.toDual, wsum]; ring
+    · subst h0 h1 h2
+      simp [lnTermsConst, osConst, csumOf, PParam.toDual, wsum]; ring
+  case zeta =>
+    cases hp : present i2 <;> simp [lnTermsConst, osConst, csumOf, PParam.toDual, wsum, hp]
+    ring
+  case psi =>
+    cases hp : present i2 <;> simp [lnTermsConst, osConst, csumOf, PParam.toDual, wsum, hp]
+    ring
+  case etheta => simp [lnTermsConst, osConst, csumOf, PParam.toDual, wsum]
+  case alphas => simp [lnTermsConst, osConst, csumOf, PParam.toDual, wsum]
+  case eta =>
+    cases hp : present i2 <;> simp [lnTermsConst, osConst, csumOf, PParam.toDual, wsum, hp]
+    ring
+  case mu =>
+    obtain ⟨h0, h1, h2, h3⟩ := ht.2 rfl
+    simp only at h0 h1 h2 h3
+    subst h0 h1 h2 h3
+    cases hp : present i2
+    · simp [lnTermsConst, osConst, csumOf, PParam.toDual, wsum, hp]
+    · by_cases e01 : i0 = i1
+      · subst e01
+        by_cases e02 : i0 = i2
+        · subst e02
+          cases h0 : neutral i0 <;>
+            simp_all [lnTermsConst, osConst, csumOf, PParam.toDual, wsum, muLn, muOs, cnt] <;> ring
+        · have e20 := Ne.symm e02
+          cases h0 : neutral i0 <;> cases h2 : neutral i2 <;>
+            simp_all [lnTermsConst, osConst, csumOf, PParam.toDual, wsum, muLn, muOs, cnt] <;> ring
+      · have e10 := Ne.symm e01
+        by_cases e02 : i0 = i2
+        · subst e02
+          cases h0 : neutral i0 <;> cases h1 : neutral i1 <;>
+            simp_all [lnTermsConst, osConst, csumOf, PParam.toDual, wsum, muLn, muOs, cnt] <;> ring
+        · have e20 := Ne.symm e02
+          by_cases e12 : i1 = i2
+          · subst e12
+            cases h0 : neutral i0 <;> cases h1 : neutral i1 <;>
+              simp_all [lnTermsConst, osConst, csumOf, PParam.toDual, wsum, muLn, muOs, cnt] <;> ring
+          · have e21 := Ne.symm e12
+            cases h0 : neutral i0 <;> cases h1 : neutral i1 <;> cases h2 : neutral i2 <;>
+              simp_all [lnTermsConst, osConst, csumOf, PParam.toDual, wsum, muLn, muOs, cnt] <;> ring
+
+
+theorem lnTermsConst_idx (n : Nat) (p : PParam Rat) (h : p.wf n) (mD : Nat → Dual) (bigZ : Dual) (present : Nat → Bool)
+    (f : TransFns Rat) : letI := dualOps f
+    ∀ t ∈ lnTermsConst p.toDual mD bigZ present, t.1 < n := by
+  obtain ⟨h0, h1, h2⟩ := h
+  obtain ⟨ty, i0, i1, i2, pp, cden, l0, l1, l2, os, g, gp, ex, et, etp⟩ := p
+  intro t ht
+  cases ty <;> simp only [lnTermsConst, PParam.toDual] at ht
+  case b0 => simp at ht; rcases ht with rfl | rfl <;> assumption
+  case b1 => simp at ht
+  case b2 => simp at ht
+  case c0 => simp at ht; rcases ht with rfl | rfl <;> assumption
+  case theta => simp at ht; rcases ht with rfl | rfl <;> assumption
+  case lambda => simp at ht; rcases ht with rfl | rfl <;> assumption
+  case etheta => simp at ht
+  case alphas => simp at ht
+  all_goals
+    have h2' : i2 < n := h2 rfl
+    cases hp : present i2 <;> simp [hp] at ht
+    rcases ht with rfl | rfl | rfl <;> assumption
+
+theorem sum_params (f : TransFns Rat) (neutral : Nat → Bool) (ps : List (PParam Rat))
+    (ht : ∀ p ∈ ps, p.tidy f neutral) (m d : Nat → Rat) (bigZ : Dual) (present : Nat → Bool) :
+    letI := dualOps f
+    (ps.map fun p => wsum m (lnTermsConst p.toDual (fun k => Dual.mk (m k) (d k)) bigZ present)).sum
+      + bigZ.re * (ps.map fun p => (csumOf p.toDual (fun k => Dual.mk (m k) (d k))).eps).sum
+      = 2 * (ps.map fun p => (osConst p.toDual (fun k => Dual.mk (m k) (d k)) bigZ present).eps).sum := by
+  induction ps with
+  | nil => simp
+  | cons p ps ih =>
+    have hp := param_gd f neutral p (ht p (by simp)) m d bigZ present
+    have ih' := ih (fun q hq => ht q (by simp [hq]))
+    simp only [List.map_cons, List.sum_cons] at *
+    linarith
+
+/-- **Gibbs–Duhem for the constant-coefficient virial part of `pitzer()`**, for every parameter list (β⁰, Cφ, θ, λ,
+ψ, ζ, μ, η with the multipliers `pitzer_tidy` assigns; β¹, β², ᴱθ contribute nothing to this part), every number of
+species, every composition `m`, every direction of change `d` and every presence pattern `IPRSNT`:
+
+  `Σ_k m_k · d(ln γ_k) = d( (φ − 1) · Σ_k m_k ) = d(2 · OSMOT)`
+
+where `d(·)` is the first-order variation along `d` (the ε-part of the model evaluated on the dual numbers
+`m_k + d_k ε`), `ln γ_k = LGAMMA[k]` includes the `z_k · CSUM` term and `BIGZ = Σ m_k |z_k|` varies with `m`. -/
+theorem virial_gibbs_duhem (f : TransFns Rat) (neutral : Nat → Bool) (n : Nat) (ps : List (PParam Rat))
+    (hwf : ∀ p ∈ ps, p.wf n) (htidy : ∀ p ∈ ps, p.tidy f neutral) (m d zabs : Nat → Rat) (present : Nat → Bool) :
+    letI := dualOps f
+    rsum n (fun k => m k *
+        (lgammaConst (ps.map PParam.toDual) (fun k => Dual.mk (m k) (d k)) (fun k => Dual.const (zabs k))
+          (sumTo n fun k => Dual.mk (m k) (d k) * Dual.const (zabs k)) present k).eps)
+      = (lit 2 * osmotConst (ps.map PParam.toDual) (fun k => Dual.mk (m k) (d k))
+          (sumTo n fun k => Dual.mk (m k) (d k) * Dual.const (zabs k)) present).eps := by
+  let _i : NumOps Dual := dualOps f
+  generalize hZ : (sumTo n fun k => Dual.mk (m k) (d k) * Dual.const (zabs k)) = bigZ
+  have hZre : bigZ.re = rsum n (fun k => m k * zabs k) := by
+    rw [← hZ, sumTo_re]
+    apply rsum_congr; intro k _; simp
+  have hidx : ∀ t ∈ constTerms (ps.map PParam.toDual) (fun k => Dual.mk (m k) (d k)) bigZ present, t.1 < n := by
+    intro t ht
+    simp only [constTerms, List.mem_flatMap, List.mem_map] at ht
+    obtain ⟨pD, ⟨p, hp, rfl⟩, hmem⟩ := ht
+    exact lnTermsConst_idx n p (hwf p hp) _ bigZ present f t hmem
+  have h1 := rsum_addTerms f n m _ (fun _ => (lit 0 : Dual)) hidx
+  have hsplit : (fun k => m k * (lgammaConst (ps.map PParam.toDual) (fun k => Dual.mk (m k) (d k))
+        (fun k => Dual.const (zabs k)) bigZ present k).eps)
+      = fun k => m k * (addTerms (constTerms (ps.map PParam.toDual) (fun k => Dual.mk (m k) (d k)) bigZ present) k (lit 0)).eps
+          + (m k * zabs k) * ((ps.map PParam.toDual).foldl (fun a p => a + csumOf p fun k => Dual.mk (m k) (d k)) (lit 0)).eps := by
+    funext k
+    simp only [lgammaConst, d_add_eps, d_mul_eps, d_const_re, d_const_eps]
+    ring
+  rw [hsplit, rsum_add, h1, rsum_mul_right n (fun k => m k * zabs k), ← hZre]
+  simp only [constTerms, osmotConst]
+  rw [wsum_flatMap, foldl_add_eps f]
+  simp only [d_mul_eps, d_lit_re, d_lit_eps]
+  rw [foldl_add_eps f]
+  simp only [d_lit_eps, d_lit_re, d_mul_eps, List.map_map, Function.comp_def, mul_zero, zero_mul, add_zero, zero_add]
+  have hs := sum_params f neutral ps htidy m d bigZ present
+  have h0 : rsum n (fun _ => (0 : Rat)) = 0 := by
+    have := rsum_mul_right n (fun _ => (0 : Rat)) 0
+    simpa using this
+  rw [h0]
+  linarith
+
+
+/-! ## water activity, osmotic coefficient, the g-functions -/
+
+/-- **a_w from φ**: `pitzer()` and `sit()` set `AW = exp(−Σm · φ / 55.50837)` with `φ = COSMOT` and `Σm = OSUM` the sum
+of all molalities in the species list — the definition of the osmotic coefficient with `M_w = 1/55.50837 kg/mol`. -/
+theorem aw_from_phi (f : TransFns Rat) (x : PzIn Rat) (y : SitIn Rat) :
+    letI := ratOps f
+    (pitzer x).aw = f.exp (-((pitzer x).osum * (pitzer x).cosmot) / (5550837 / 100000)) ∧
+    (pitzer x).osum = sumTo x.n x.m ∧
+    (sit y).aw = f.exp (-((sit y).osum * (sit y).cosmot) / (5550837 / 100000)) ∧
+    (sit y).osum = sumTo y.n y.m := by
+  refine ⟨?_, rfl, ?_, rfl⟩
+  · simp only [pitzer, rat_exp, rat_lit]; congr 1; ring
+  · simp only [sit, rat_exp, rat_lit]; congr 1; ring
+
+/-- `(φ − 1)·Σm = 2·OSMOT`: the quantity the Gibbs–Duhem identity is about (partial: needs `Σm ≠ 0`, otherwise the
+code divides by zero) -/
+theorem cosmot_partial (osmot osum : Rat) (h : osum ≠ 0) : ((1 + 2 * osmot / osum) - 1) * osum = 2 * osmot := by
+  field_simp; ring
+
+/-- the two g-functions of the β¹/β² terms satisfy `g(y) + g′(y) = exp(−y)` as coded (`G`, `GP`), whatever `exp`
+is: this is the relation `Bᵠ = B + I·B′` between the γ-side and the φ-side of the β¹ term (partial: `y ≠ 0`; at
+`y = 0` the code returns 0 for both) -/
+theorem g_gp_exp_partial (f : TransFns Rat) (y : Rat) (hy : y ≠ 0) :
+    letI := ratOps f
+    G y + GP y = f.exp (-y) := by
+  have hz : (letI := ratOps f; isZero y) = false := by
+    simp only [isZero, rat_lit]
+    rcases lt_or_gt_of_ne hy with h | h
+    · have : ¬ (0 ≤ y) := not_le.mpr h
+      simp [this]
+    · have : ¬ (y ≤ 0) := not_le.mpr h
+      simp [this]
+  simp only [G, GP, hz, rat_lit, rat_exp]
+  simp only [Bool.false_eq_true, if_false]
+  field_simp
+  ring
+
+/-- the full statement fails at `y = 0`: both functions return 0 there, `exp 0` need not be 0 -/
+example : letI := ratOps ⟨id, id, id, fun _ => 1, id, id, id, id, id, id⟩
+    G (0 : Rat) + GP 0 ≠ (fun _ => (1 : Rat)) (-0) := by
+  norm_num [G, GP, isZero]
+
+/-- non-vacuity of `virial_gibbs_duhem`'s ingredients on a concrete instance: β⁰(0,1) = 1/10, Cφ(0,1) = 1/50 with
+`2·sqrt|z0 z1| = 2`, ψ(0,1,2) = 1/100 at `m = (1, 2, 3)`, `|z| = (1, 1, 1)`, varying species 0 only -/
+example : letI := dualOps ⟨id, id, id, id, id, id, id, id, id, id⟩
+    let ps : List (PParam Dual) :=
+      [ { type := .b0, i0 := 0, i1 := 1, i2 := 3, p := .const (1 / 10), c0den := .const 0, ln0 := .const 0, ln1 := .const 0,
+          ln2 := .const 0, os := .const 0, g := .const 0, gp := .const 0, ex := .const 0, etheta := .const 0, ethetap := .const 0 },
+        { type := .c0, i0 := 0, i1 := 1, i2 := 3, p := .const (1 / 50), c0den := .const 2, ln0 := .const 0, ln1 := .const 0,
+          ln2 := .const 0, os := .const 0, g := .const 0, gp := .const 0, ex := .const 0, etheta := .const 0, ethetap := .const 0 },
+        { type := .psi, i0 := 0, i1 := 1, i2 := 2, p := .const (1 / 100), c0den := .const 0, ln0 := .const 0, ln1 := .const 0,
+          ln2 := .const 0, os := .const 0, g := .const 0, gp := .const 0, ex := .const 0, etheta := .const 0, ethetap := .const 0 } ]
+    let m : Nat → Dual := fun k => if k = 0 then ⟨1, 1⟩ else if k = 1 then ⟨2, 0⟩ else ⟨3, 0⟩
+    let bigZ : Dual := ⟨6, 1⟩
+    (lit 2 * osmotConst ps m bigZ (fun _ => true)).eps = 4 / 5 ∧
+    1 * (lgammaConst ps m (fun _ => .const 1) bigZ (fun _ => true) 0).eps
+      + 2 * (lgammaConst ps m (fun _ => .const 1) bigZ (fun _ => true) 1).eps
+      + 3 * (lgammaConst ps m (fun _ => .const 1) bigZ (fun _ => true) 2).eps = 4 / 5 := by
+  refine ⟨?_, ?_⟩ <;>
+    norm_num [osmotConst, osConst, lgammaConst, constTerms, lnTermsConst, csumOf, addTerms, Dual.const]
+
+
+end PhreeqcVerif.Pitzer
